@@ -55,7 +55,7 @@ static int c16_main(int argc,char **argv){
     int n=split(line,tok,70000);
     if(n==0){ free(line); continue; }
     if(!strcmp(tok[0],"case")){
-      printf("== case %s\n",n>1?tok[1]:"?"); fflush(stdout);
+      printf("== case %s\n",n>1?tok[1]:"?"); fflush(stdout); case_watchdog();
       if(c16_pending_init){ vorbis_comment_clear(&c16_pending); c16_pending_init=0; }
     }else if(!strcmp(tok[0],"roundtrip")){
       vorbis_comment vc; int i;
